@@ -2,6 +2,7 @@
 import ast
 
 from .model import AnalysisError, NotConst, fold, node_src, is_self_attr, call_name
+from .paths import Const
 from .report import walk_no_nested
 
 LEVEL = "other"
@@ -168,6 +169,9 @@ def run(chk):
         msg = None
         for pos, kw in created:
             v = kw.get(o, "<not passed>")
+            if v == "<not passed>" and "**" in kw:
+                r3.undecided("PooledClient:option-not-propagated:%s" % o, "the clients are constructed with a `**mapping` whose content the analysis lost")
+                break
             if v == "<not passed>":
                 msg = "the clients PooledClient creates are not given `%s`: the option is accepted by PooledClient and silently ignored" % o
             elif isinstance(v, pooled_an.P) and v.name == o:
@@ -181,7 +185,8 @@ def run(chk):
                 msg = "the clients PooledClient creates get %s=%s instead of the PooledClient's own `%s` option" % (o, shown, o)
             break
         r3.expect(msg is None, "PooledClient option %s: constructor parameter -> client_class(%s=...)" % (o, o), "PooledClient:option-not-propagated:%s" % o, msg or "", fn=cc, node=cc.node)
-    # HashClient and AWS sibling
+    # HashClient and its AWS sibling: __init__ followed by add_server, interpreted with the constructor parameters as
+    # symbols - what the per-server client (Client or PooledClient) is finally constructed with, on every path
     for cname in ("HashClient", "AWSElastiCacheHashClient"):
         cls = prog.cls(cname)
         init = prog.method(cls, "__init__")
@@ -189,45 +194,46 @@ def run(chk):
             continue
         shared = [o for o in copts if init.param(o) is not None]
         r3.floor("options shared by Client and %s" % cname, len(shared), 14)
-        dk = None
-        updates = []
-        for n in walk_no_nested(init.node):
-            if isinstance(n, ast.Assign) and any(is_self_attr(t, "default_kwargs") for t in n.targets) and isinstance(n.value, ast.Dict):
-                dk = n.value
-            if isinstance(n, ast.Call) and isinstance(n.func, ast.Attribute) and n.func.attr == "update" and is_self_attr(n.func.value, "default_kwargs") and n.args and isinstance(n.args[0], ast.Dict):
-                updates.append(n)
-        if dk is None:
-            r3.fail("%s:default_kwargs-missing" % cname, "%s.__init__ no longer builds self.default_kwargs as a dict display" % cname, fn=init, node=init.node)
-            continue
-        entries = {}
-        for k, v in zip(dk.keys, dk.values):
-            if isinstance(k, ast.Constant):
-                entries[k.value] = v
-        for o in shared:
+        hinit, hadd, hcreated = pooled_an.created_client_options(prog, cname, "add_server")
+        if not hcreated:
+            raise AnalysisError("C16.R3: no construction of a per-server client is reached through %s.__init__ + add_server" % cname)
+        pool_opts = [o for o in ("max_pool_size", "pool_idle_timeout", "lock_generator") if init.param(o) is not None]
+        for o in shared + pool_opts:
             if o in EXEMPT_OPTIONS["HashClient"]:
                 r3.note("%s option `%s` exempt: %s" % (cname, o, EXEMPT_OPTIONS["HashClient"][o]))
                 continue
-            v = entries.get(o)
-            ok = isinstance(v, ast.Name) and v.id == o
-            r3.expect(ok, "%s option %s is a key of default_kwargs bound to the parameter" % (cname, o), "%s:option-not-propagated:%s" % (cname, o), "%s.__init__ %s: the option never reaches the per-server clients" % (cname, ("binds default_kwargs[%r] to `%s`" % (o, node_src(v))) if v is not None else ("does not put `%s` into default_kwargs" % o)), fn=init, node=dk)
-        for k in entries:
-            if k not in copts and k not in ("max_pool_size", "pool_idle_timeout", "lock_generator"):
-                r3.fail("%s:unknown-option:%s" % (cname, k), "default_kwargs carries `%s`, which Client.__init__ does not accept" % k, fn=init, node=dk)
-        # pool options under use_pooling
-        pool_opts = [o for o in ("max_pool_size", "pool_idle_timeout", "lock_generator") if init.param(o) is not None]
-        got = {}
-        for u in updates:
-            for k, v in zip(u.args[0].keys, u.args[0].values):
-                if isinstance(k, ast.Constant):
-                    got[k.value] = v
-        for o in pool_opts:
-            v = got.get(o, entries.get(o))
-            ok = isinstance(v, ast.Name) and v.id == o
-            r3.expect(ok, "%s pool option %s forwarded under use_pooling" % (cname, o), "%s:pool-option-not-propagated:%s" % (cname, o), "%s does not forward pool option `%s`" % (cname, o), fn=init, node=dk)
-    # add_server passes **self.default_kwargs
-    add = prog.method(hashc, "add_server")
-    ctor = [c for c in walk_no_nested(add.node) if isinstance(c, ast.Call) and any(k.arg is None and is_self_attr(k.value, "default_kwargs") for k in c.keywords)]
-    r3.expect(len(ctor) >= 1, "HashClient.add_server builds clients with **self.default_kwargs", "HashClient.add_server:default_kwargs-not-used", "add_server does not pass **self.default_kwargs to the client constructor", fn=add, node=add.node)
+            msg = None
+            n_with = 0
+            for pos, kw in hcreated:
+                if o in pool_opts and o not in kw:
+                    continue  # pool options travel only when pooling is switched on
+                n_with += 1
+                v = kw.get(o, "<not passed>")
+                if v == "<not passed>" and "**" in kw:
+                    r3.undecided("%s:option-not-propagated:%s" % (cname, o), "the per-server clients are constructed with a `**mapping` whose content the analysis lost")
+                    break
+                if v == "<not passed>":
+                    msg = "the per-server clients are not given `%s`: the option is accepted by %s and never reaches them" % (o, cname)
+                elif isinstance(v, pooled_an.P) and v.name == o:
+                    continue
+                elif isinstance(v, pooled_an.Derived) and o in v.names:
+                    continue
+                else:
+                    shown = "its `%s` parameter" % v.name if isinstance(v, pooled_an.P) else str(v)
+                    msg = "the per-server clients get %s=%s instead of %s's own `%s` option" % (o, shown, cname, o)
+                break
+            if o in pool_opts and not n_with and msg is None:
+                msg = "pool option `%s` is never forwarded, also not under use_pooling" % o
+            construct = "%s:%soption-not-propagated:%s" % (cname, "pool-" if o in pool_opts else "", o)
+            r3.expect(msg is None, "%s option %s: constructor parameter -> per-server client(%s=...)" % (cname, o, o), construct, msg or "", fn=hinit, node=hinit.node)
+        allowed = set(copts) | {"max_pool_size", "pool_idle_timeout", "lock_generator"}
+        for pos, kw in hcreated:
+            for k in kw:
+                if k not in allowed and k != "**":
+                    r3.fail("%s:unknown-option:%s" % (cname, k), "the per-server clients are constructed with `%s`, which Client.__init__ does not accept" % k, fn=hinit, node=hinit.node)
+            # failures must reach the failover logic: the per-server clients are never told to swallow them
+            v = kw.get("ignore_exc", None)
+            r3.expect(v is None or v == Const(False), "%s: per-server clients keep ignore_exc=False" % cname, "%s:ignore_exc-forwarded" % cname, "%s constructs its per-server clients with ignore_exc=%s: with ignore_exc set their reads swallow connection errors, so %s never sees a failure - no marking, no back-off, no eviction, every call contacts the dead server" % (cname, "its own `ignore_exc` option" if isinstance(v, pooled_an.P) else v, cname), fn=hinit, node=hinit.node)
 
     # ------------------------------------------------------------------ R4 RetryingClient transparency
     r4 = chk.rule("C16.R4", "RetryingClient forwards name, bound method and all arguments; _retry returns the delegate's result unmodified; dunders mirror Client's")
